@@ -301,8 +301,9 @@ theorem generated_bookkeeping_eq_model (N L W epochs : Nat) (v : Variant) :
     sampleRate (lenDP v L) = qAcc v L ∧
     calibSteps epochs (sampleRateWithEpsilon L) = stepsCal .asCoded epochs L ∧
     expectedBatchSize N (sampleRate (lenDP v L)) = ebs v N L ∧
-    expectedBatchSizeDist (ebs v N L) W = ebsDist v N L W :=
-  ⟨rfl, rfl, rfl, rfl, rfl, rfl, rfl⟩
+    expectedBatchSizeDist (ebs v N L) W = ebsDist v N L W ∧
+    loaderSampleRate L = qSampler L :=
+  ⟨rfl, rfl, rfl, rfl, rfl, rfl, rfl, rfl⟩
 
 end generatedTie
 
